@@ -15,6 +15,9 @@ pub enum WFault {
     GateOut { gate: usize, d: S },
     GateLeft { gate: usize, d: S },
     GateRight { gate: usize, d: S },
+    /// two gates with opposite output errors (+d, -d): cancels only if the two gates were
+    /// (wrongly) given the same weight y^i
+    GateOutPair { g1: usize, g2: usize, d: S },
     /// public constant of a constraint changed on both sides
     Constant { at: (usize, Option<usize>), d: S },
     /// two constraints (adjacent rows) violated by +d and -d: cancels only if
@@ -30,6 +33,7 @@ impl WFault {
             WFault::GateOut { .. } => "F10-gate-out",
             WFault::GateLeft { .. } => "F10-gate-left",
             WFault::GateRight { .. } => "F10-gate-right",
+            WFault::GateOutPair { .. } => "F10-gate-out-pair-cancelling",
             WFault::Constant { .. } => "F10-constant",
             WFault::ConstantPair { .. } => "F10-constant-pair-cancelling",
         }
@@ -129,6 +133,26 @@ pub fn apply(st: &Statement, f: &WFault, n1: usize) -> Option<Statement> {
                 }
             }
         }
+        WFault::GateOutPair { g1, g2, d } => {
+            // -d spelled as (0 - d) through the expression language
+            let neg = |k: VK| Val::Eval(Expr::sub(Expr::Raw(k), Expr::K(d.clone())));
+            for (gate, plus) in [(*g1, true), (*g2, false)] {
+                let op = Op::OverwriteGate {
+                    gate,
+                    l: Val::Eval(Expr::Raw(VK::L(gate))),
+                    r: Val::Eval(Expr::Raw(VK::R(gate))),
+                    o: if plus { Val::EvalPlus(Expr::Raw(VK::O(gate)), d.clone()) } else { neg(VK::O(gate)) },
+                };
+                if gate < n1 {
+                    s.ops.push(op);
+                } else {
+                    let last = s.ops.iter_mut().rev().find(|o| matches!(o, Op::Randomized(_)))?;
+                    if let Op::Randomized(b) = last {
+                        b.push(op);
+                    }
+                }
+            }
+        }
         WFault::Constant { at, d } => match op_at(&mut s, *at)? {
             Op::Constrain(e) => *e = Expr::sub(e.clone(), Expr::K(d.clone())),
             _ => return None,
@@ -224,6 +248,14 @@ pub fn gen_fault(rng: &mut Rng, st: &Statement, n1: usize, n2: usize) -> Option<
         let boundary: Vec<&(usize, usize, usize)> = adj.iter().filter(|(_, _, r)| (r + 1) % 64 == 0).collect();
         let (a, b, _) = if !boundary.is_empty() && chance(rng, 3, 4) { **pick(rng, &boundary) } else { *pick(rng, &adj) };
         return Some(WFault::ConstantPair { at1: (a, None), at2: (b, None), d: S::U(1 + (below(rng, 5) as u64)) });
+    }
+    if crate::HOOKS && n >= 2 && chance(rng, 1, 8) {
+        // bias to the pair that straddles the phase boundary, then adjacent pairs
+        let g1 = if n1 >= 1 && n2 >= 1 && chance(rng, 1, 2) { n1 - 1 } else { below(rng, n - 1) };
+        let g2 = if chance(rng, 3, 4) { g1 + 1 } else { (g1 + 1 + below(rng, n - 1)) % n };
+        if g1 != g2 {
+            return Some(WFault::GateOutPair { g1, g2, d });
+        }
     }
     for _ in 0..8 {
         match below(rng, 7) {
